@@ -26,8 +26,8 @@ MapOf(ps) == LET u == FirstWins(ps, <<>>) IN Sel(u, LAMBDA p : Scalar(p.k)) \o S
 At(m, k) == IF Has(m, k) THEN m[CHOOSE i \in 1..Len(m) : Same(m[i].k, k)].v ELSE -1       \* -1: nil
 
 (* ---- objects: names ordered by the tables below --------------------------- *)
-Public  == <<"a", "b", "c", "d">>
-Private == <<"_p", "_q">>
+Public  == <<"a", "a!", "b", "c", "d">>        \* sorted by the raw name: a name precedes the same name with a suffix
+Private == <<"_p", "_p!", "_q">>
 NameKey(n) == [t |-> "str", s |-> "\"" \o n \o "\""]      \* a name as a (symbol / string) key
 RECURSIVE Pick(_, _, _)
 Pick(names, u, i) == IF i > Len(names) THEN <<>>
